@@ -199,6 +199,26 @@ fn run_case(ctx: &mut Ctx, cfg: &Cfg, c: &Case) {
             else { ctx.ambiguous(&format!("{}:{}", c.label.split(['@', '>']).next().unwrap_or(""), if ran { "ran".to_string() } else { p.status.to_string() })) }
         }
     }
+    // History of length two: after a request that was not admitted (whichever error path it took) a token issued by the same
+    // configuration must verify - state kept across requests must not leak.  Once per (configuration, kind of request).
+    if v.expect != Expect::Accept && c.label != "probe-after" {
+        thread_local! { static PROBED: std::cell::RefCell<std::collections::HashSet<(String, u8, bool, String)>> = Default::default(); }
+        let key = (cfg.secret.clone(), cfg.alg as u8, cfg.typed, c.label.split(['@', '>', '(']).next().unwrap_or("").to_string());
+        if PROBED.with(|p| p.borrow_mut().insert(key)) {
+            if let Ok(tok) = cfg.issue(&json!({"sub": "u"})) {
+                let auth = format!("Bearer {tok}");
+                let raw2 = app::request("GET", "/", &[("Host", "h"), ("Authorization", &auth)], b"");
+                let before = RUNS.load(Ordering::SeqCst);
+                let out2 = app::oneshot(&cfg.router, &raw2);
+                let ran2 = RUNS.load(Ordering::SeqCst) != before;
+                ctx.transitions += 1;
+                if !ran2 && !cfg.typed {
+                    ctx.violation(&format!("C12/{}/after:{}/issued-token-refused", cfg.alg.name(), c.label.split(['@', '>', '(']).next().unwrap_or("")), true,
+                        witness(format!("then `GET / Authorization: {auth}`: {}", out2.kind())));
+                }
+            }
+        }
+    }
 }
 
 /* -------------------------------------------------------------- payload alphabet --------------------------- */
